@@ -1,0 +1,82 @@
+//go:build verif
+
+package document
+
+import (
+	"github.com/benoitkugler/webrender/backend"
+	bo "github.com/benoitkugler/webrender/html/boxes"
+	"github.com/benoitkugler/webrender/utils"
+)
+
+// Read-only accessors and wrappers used by the /verif correspondence check of
+// property C14 (links, anchors, bookmarks). Compiled only with `-tags verif`.
+
+// VerifAnchor is one entry of a page anchor map.
+type VerifAnchor struct {
+	Name string
+	X, Y utils.Fl
+}
+
+// VerifBookmark mirrors the unexported bookmarkData.
+type VerifBookmark struct {
+	Level int
+	Label string
+	X, Y  utils.Fl
+	Open  bool
+}
+
+// VerifPageData is the per page input of resolveLinks / makeBookmarkTree.
+type VerifPageData struct {
+	Anchors   []VerifAnchor // distinct names (content of the page anchor map)
+	Links     []Link
+	Bookmarks []VerifBookmark
+}
+
+// VerifPages returns the data gathered by newPage for each page of a rendered
+// document (the anchors in the iteration order of the map).
+func VerifPages(d *Document) []VerifPageData {
+	out := make([]VerifPageData, len(d.Pages))
+	for i, p := range d.Pages {
+		for name, pos := range p.anchors {
+			out[i].Anchors = append(out[i].Anchors, VerifAnchor{Name: name, X: pos[0], Y: pos[1]})
+		}
+		out[i].Links = append([]Link(nil), p.links...)
+		for _, b := range p.bookmarks {
+			out[i].Bookmarks = append(out[i].Bookmarks, VerifBookmark{
+				Level: b.level, Label: b.label, X: b.position[0], Y: b.position[1], Open: b.open,
+			})
+		}
+	}
+	return out
+}
+
+// VerifPageBox returns the laid out page box of a page.
+func VerifPageBox(p Page) *bo.PageBox { return p.pageBox }
+
+func verifDocument(pages []VerifPageData) Document {
+	d := Document{Pages: make([]Page, len(pages))}
+	for i, p := range pages {
+		d.Pages[i].anchors = anchors{}
+		for _, a := range p.Anchors {
+			d.Pages[i].anchors[a.Name] = [2]fl{a.X, a.Y}
+		}
+		d.Pages[i].links = append([]Link(nil), p.Links...)
+		for _, b := range p.Bookmarks {
+			d.Pages[i].bookmarks = append(d.Pages[i].bookmarks, bookmarkData{
+				level: b.Level, label: b.Label, position: [2]fl{b.X, b.Y}, open: b.Open,
+			})
+		}
+	}
+	return d
+}
+
+// VerifResolveLinks runs resolveLinks on caller supplied page data.
+func VerifResolveLinks(pages []VerifPageData) ([][]Link, [][]backend.Anchor) {
+	d := verifDocument(pages)
+	return d.resolveLinks()
+}
+
+// VerifMakeBookmarkTree runs makeBookmarkTree on caller supplied page data.
+func VerifMakeBookmarkTree(pages []VerifPageData) []backend.BookmarkNode {
+	return verifDocument(pages).makeBookmarkTree()
+}
